@@ -113,7 +113,8 @@ CHECKS = {
         technique="Lean 4: parse-after-build theorem via generic split/join lemmas; decision-table theorems; differential correspondence (exhaustive product)",
         ref='§4 C14'),
     'C15': dict(
-        text=("C15_once (once fired, nothing fires again or changes the outcome), C15_unsubscribed_always (for every history: fired => unsubscribed, on "
+        text=("C15_lost (a lost control connection fails a pending wait once and unsubscribes it; a completed one is left alone — after fix 2fe40b3), "
+              "C15_once (once fired, nothing fires again or changes the outcome), C15_unsubscribed_always (for every history: fired => unsubscribed, on "
               "success and failure alike), C15_foreign_inert / C15_foreign_uploaded_inert / C15_before_reply (events of other services and events "
               "before the address is known change nothing), C15_any (first confirmed upload completes the wait at that event), C15_all + "
               "C15_all_run (await-all mode, every disciplined history with the reply anywhere: never left hanging once every attempted upload has a "
